@@ -129,7 +129,8 @@ func (ed Editor) AlignOpts(align Alignment, width int, opts Options) Editor {
 						if rightRemoveSpace > rightSpace {
 							rightRemoveSpace = rightSpace
 						}
-						firstLine = firstLine.Sub(leftSpace, -rightRemoveSpace)
+						// Sub(x, -0) would be Sub(x, 0) and drop the whole line
+						firstLine = firstLine.Sub(leftSpace, firstLine.Len()-rightRemoveSpace)
 					}
 
 					bl.Set(0, firstLine)
@@ -149,7 +150,8 @@ func (ed Editor) AlignOpts(align Alignment, width int, opts Options) Editor {
 						if leftRemoveSpace > leftSpace {
 							leftRemoveSpace = leftSpace
 						}
-						lastLine = lastLine.Sub(leftRemoveSpace, -rightSpace)
+						// Sub(x, -0) would be Sub(x, 0) and drop the whole line
+						lastLine = lastLine.Sub(leftRemoveSpace, lastLine.Len()-rightSpace)
 					}
 
 					bl.Set(bl.Len()-1, lastLine)
